@@ -28,6 +28,7 @@ type HarnessOpts struct {
 	Backends     []BackendSpec // order of preference
 	MapOrders    bool          // C08 mode: explore iteration orders of maps
 	RealBodies   []string      // function-name prefixes whose intrinsics are bypassed (real body runs)
+	FloatMode    string        // "real" (default) or "fp": model of math/big.Float
 	Config       map[string]int64
 }
 
